@@ -49,6 +49,10 @@ def build_tools(ctx):
 
 def run_harness(exe, seed, n, mode):
     rc, out, err = sh([exe, str(seed), str(n), mode], timeout=1500)
+    if rc == 127:
+        # the shared libraries were being relinked by a concurrent build of the shared tree: wait for its lock, retry once
+        sh([os.path.join(VERIF, 'bin', 'build_repo')], timeout=3600)
+        rc, out, err = sh([exe, str(seed), str(n), mode], timeout=1500)
     return parse_harness(out), rc
 
 def parse_harness(out):
